@@ -1754,6 +1754,12 @@ api_muladd(unsigned char *A, const unsigned char *B, size_t len,
 	CCOPY(s & ~t, &P, &Q, sizeof Q);
 	point_encode(A, &P);
 	r &= ~(s & t);
+
+	/*
+	 * A zero multiplier is an error.
+	 */
+	r &= br_ec_multiplier_nonzero(x, xlen)
+		& br_ec_multiplier_nonzero(y, ylen);
 	return r;
 }
 
